@@ -9,8 +9,11 @@ package cast
 //@   ensures len(r0) == len(v) && cap(r0) == len(v) && off(r0) == 0 && arr(r0) == strdata(v)
 //@   ensures forall(i, 0, len(v), r0[i] == v[i])
 
+// strStore(s): the array a string made by the unsafe cast keeps pointing into (the cast does not copy)
+//@ spec strStore(s string) ref = uninterpreted
 //@ assumed func ByteArrayToString(buf []byte) string
 //@   ensures len(r0) == len(buf) && forall(i, 0, len(buf), r0[i] == buf[i])
+//@   ensures len(buf) > 0 ==> strStore(r0) == arr(buf)
 
 //@ func Ptr(v T) *T
 //@   props C04
